@@ -303,6 +303,14 @@ RECURSIVE CyclesRef(_, _, _, _)
 CyclesRef(v, s, ord, n) == IF n = 0 THEN [v |-> v, s |-> s]
                            ELSE LET c == CycleRef(v, s, ord) IN CyclesRef(c.v, c.s, ord, n - 1)
 
+\* what a simulator listener sees: it is notified once after every cycle of a clk(n) call, with the wires as they are then
+RECURSIVE CyclesSeenFrom(_, _, _, _, _), CyclesSeenWith(_, _, _, _)
+CyclesSeenFrom(v, s, ord, n, acc) ==
+    IF n = 0 THEN acc
+    ELSE CyclesSeenWith(CycleRef(v, s, ord), ord, n, acc)
+CyclesSeenWith(c, ord, n, acc) == CyclesSeenFrom(c.v, c.s, ord, n - 1, Append(acc, c.v))
+CyclesSeen(v, s, ord, n) == CyclesSeenFrom(v, s, ord, n, <<>>)
+
 EdgeAtomic ==
     pc = "settled" /\ ~taint =>
         /\ st = EdgeRefSt(pre[1], pre[2])
